@@ -64,14 +64,17 @@ Ltac split22_step :=
     let S := fresh "S" in pose proof (split22_land32 v u c V Hu Hc) as S;
     clear Hu Hc V; split3 S end.
 
-Theorem fe10x26_mul_inner_correct a0 a1 a2 a3 a4 a5 a6 a7 a8 a9 b0 b1 b2 b3 b4 b5 b6 b7 b8 b9 :
+Definition modp0 (x : Z) : Prop := x mod P256 = 0.
+(* weakest-precondition form (arbitrary continuation); the congruence is kept behind [modp0] so that the arithmetic tactics do not look inside the continuation hypothesis *)
+Theorem fe10x26_mul_inner_wp a0 a1 a2 a3 a4 a5 a6 a7 a8 a9 b0 b1 b2 b3 b4 b5 b6 b7 b8 b9 (Q : Z -> Z -> Z -> Z -> Z -> Z -> Z -> Z -> Z -> Z -> Prop) :
   0 <= a0 < 2^30 -> 0 <= a1 < 2^30 -> 0 <= a2 < 2^30 -> 0 <= a3 < 2^30 -> 0 <= a4 < 2^30 -> 0 <= a5 < 2^30 -> 0 <= a6 < 2^30 -> 0 <= a7 < 2^30 -> 0 <= a8 < 2^30 -> 0 <= a9 < 2^26 ->
   0 <= b0 < 2^30 -> 0 <= b1 < 2^30 -> 0 <= b2 < 2^30 -> 0 <= b3 < 2^30 -> 0 <= b4 < 2^30 -> 0 <= b5 < 2^30 -> 0 <= b6 < 2^30 -> 0 <= b7 < 2^30 -> 0 <= b8 < 2^30 -> 0 <= b9 < 2^26 ->
-  fe10x26_mul_inner_k a0 a1 a2 a3 a4 a5 a6 a7 a8 a9 b0 b1 b2 b3 b4 b5 b6 b7 b8 b9 (fun r0 r1 r2 r3 r4 r5 r6 r7 r8 r9 =>
+  (forall r0 r1 r2 r3 r4 r5 r6 r7 r8 r9,
     (0 <= r0 < 2^26 /\ 0 <= r1 < 2^26 /\ 0 <= r2 < 2^27 /\ 0 <= r3 < 2^26 /\ 0 <= r4 < 2^26 /\ 0 <= r5 < 2^26 /\ 0 <= r6 < 2^26 /\ 0 <= r7 < 2^26 /\ 0 <= r8 < 2^26 /\ 0 <= r9 < 2^22) /\
-    (val10 r0 r1 r2 r3 r4 r5 r6 r7 r8 r9 - val10 a0 a1 a2 a3 a4 a5 a6 a7 a8 a9 * val10 b0 b1 b2 b3 b4 b5 b6 b7 b8 b9) mod P256 = 0).
+    modp0 (val10 r0 r1 r2 r3 r4 r5 r6 r7 r8 r9 - val10 a0 a1 a2 a3 a4 a5 a6 a7 a8 a9 * val10 b0 b1 b2 b3 b4 b5 b6 b7 b8 b9) -> Q r0 r1 r2 r3 r4 r5 r6 r7 r8 r9) ->
+  fe10x26_mul_inner_k a0 a1 a2 a3 a4 a5 a6 a7 a8 a9 b0 b1 b2 b3 b4 b5 b6 b7 b8 b9 Q.
 Proof.
-  intros Ha0 Ha1 Ha2 Ha3 Ha4 Ha5 Ha6 Ha7 Ha8 Ha9 Hb0 Hb1 Hb2 Hb3 Hb4 Hb5 Hb6 Hb7 Hb8 Hb9.
+  intros Ha0 Ha1 Ha2 Ha3 Ha4 Ha5 Ha6 Ha7 Ha8 Ha9 Hb0 Hb1 Hb2 Hb3 Hb4 Hb5 Hb6 Hb7 Hb8 Hb9 HQ.
   assert (Hprod : val10 a0 a1 a2 a3 a4 a5 a6 a7 a8 a9 * val10 b0 b1 b2 b3 b4 b5 b6 b7 b8 b9 =
     (a0*b0)
     + (a0*b1 + a1*b0) * 2^26
@@ -92,13 +95,15 @@ Proof.
     + (a7*b9 + a8*b8 + a9*b7) * 2^416
     + (a8*b9 + a9*b8) * 2^442
     + (a9*b9) * 2^468) by (unfold val10; ring).
-  rewrite Hprod. clear Hprod.
+  rewrite Hprod in HQ. clear Hprod. revert HQ.
   unfold fe10x26_mul_inner_k.
   gen_prod30 a0 b0. gen_prod30 a0 b1. gen_prod30 a0 b2. gen_prod30 a0 b3. gen_prod30 a0 b4. gen_prod30 a0 b5. gen_prod30 a0 b6. gen_prod30 a0 b7. gen_prod30 a0 b8. gen_prod30 a0 b9. gen_prod30 a1 b0. gen_prod30 a1 b1. gen_prod30 a1 b2. gen_prod30 a1 b3. gen_prod30 a1 b4. gen_prod30 a1 b5. gen_prod30 a1 b6. gen_prod30 a1 b7. gen_prod30 a1 b8. gen_prod30 a1 b9. gen_prod30 a2 b0. gen_prod30 a2 b1. gen_prod30 a2 b2. gen_prod30 a2 b3. gen_prod30 a2 b4. gen_prod30 a2 b5. gen_prod30 a2 b6. gen_prod30 a2 b7. gen_prod30 a2 b8. gen_prod30 a2 b9. gen_prod30 a3 b0. gen_prod30 a3 b1. gen_prod30 a3 b2. gen_prod30 a3 b3. gen_prod30 a3 b4. gen_prod30 a3 b5. gen_prod30 a3 b6. gen_prod30 a3 b7. gen_prod30 a3 b8. gen_prod30 a3 b9. gen_prod30 a4 b0. gen_prod30 a4 b1. gen_prod30 a4 b2. gen_prod30 a4 b3. gen_prod30 a4 b4. gen_prod30 a4 b5. gen_prod30 a4 b6. gen_prod30 a4 b7. gen_prod30 a4 b8. gen_prod30 a4 b9. gen_prod30 a5 b0. gen_prod30 a5 b1. gen_prod30 a5 b2. gen_prod30 a5 b3. gen_prod30 a5 b4. gen_prod30 a5 b5. gen_prod30 a5 b6. gen_prod30 a5 b7. gen_prod30 a5 b8. gen_prod30 a5 b9. gen_prod30 a6 b0. gen_prod30 a6 b1. gen_prod30 a6 b2. gen_prod30 a6 b3. gen_prod30 a6 b4. gen_prod30 a6 b5. gen_prod30 a6 b6. gen_prod30 a6 b7. gen_prod30 a6 b8. gen_prod30 a6 b9. gen_prod30 a7 b0. gen_prod30 a7 b1. gen_prod30 a7 b2. gen_prod30 a7 b3. gen_prod30 a7 b4. gen_prod30 a7 b5. gen_prod30 a7 b6. gen_prod30 a7 b7. gen_prod30 a7 b8. gen_prod30 a7 b9. gen_prod30 a8 b0. gen_prod30 a8 b1. gen_prod30 a8 b2. gen_prod30 a8 b3. gen_prod30 a8 b4. gen_prod30 a8 b5. gen_prod30 a8 b6. gen_prod30 a8 b7. gen_prod30 a8 b8. gen_prod30 a8 b9. gen_prod30 a9 b0. gen_prod30 a9 b1. gen_prod30 a9 b2. gen_prod30 a9 b3. gen_prod30 a9 b4. gen_prod30 a9 b5. gen_prod30 a9 b6. gen_prod30 a9 b7. gen_prod30 a9 b8. gen_prod30 a9 b9.
   clear Ha0 Ha1 Ha2 Ha3 Ha4 Ha5 Ha6 Ha7 Ha8 Ha9 Hb0 Hb1 Hb2 Hb3 Hb4 Hb5 Hb6 Hb7 Hb8 Hb9.
+  intro HQ.
   repeat first [ split26_step | split22_step | sum_step | keep_step ].
   bintro. match goal with H : ?x = u32 ?v |- _ => assert (Er : x = v) by (rewrite H; unfold u32; apply Z.mod_small; timeout 120 lia); clear H end.
   cbv beta.
+  apply HQ; clear HQ; unfold modp0.
   split; [repeat (split; [timeout 300 lia|]); timeout 300 lia|].
   (* the exact integer identity: result + (16*Dhi + c37) * p = product, where Dhi collects the limbs of the columns above 2^260 *)
   match goal with |- (?l - ?x) mod P256 = 0 =>
@@ -109,6 +114,16 @@ Proof.
   apply Z.mod_mul. unfold P256. lia.
 Qed.
 
+Theorem fe10x26_mul_inner_correct a0 a1 a2 a3 a4 a5 a6 a7 a8 a9 b0 b1 b2 b3 b4 b5 b6 b7 b8 b9 :
+  0 <= a0 < 2^30 -> 0 <= a1 < 2^30 -> 0 <= a2 < 2^30 -> 0 <= a3 < 2^30 -> 0 <= a4 < 2^30 -> 0 <= a5 < 2^30 -> 0 <= a6 < 2^30 -> 0 <= a7 < 2^30 -> 0 <= a8 < 2^30 -> 0 <= a9 < 2^26 ->
+  0 <= b0 < 2^30 -> 0 <= b1 < 2^30 -> 0 <= b2 < 2^30 -> 0 <= b3 < 2^30 -> 0 <= b4 < 2^30 -> 0 <= b5 < 2^30 -> 0 <= b6 < 2^30 -> 0 <= b7 < 2^30 -> 0 <= b8 < 2^30 -> 0 <= b9 < 2^26 ->
+  fe10x26_mul_inner_k a0 a1 a2 a3 a4 a5 a6 a7 a8 a9 b0 b1 b2 b3 b4 b5 b6 b7 b8 b9 (fun r0 r1 r2 r3 r4 r5 r6 r7 r8 r9 =>
+    (0 <= r0 < 2^26 /\ 0 <= r1 < 2^26 /\ 0 <= r2 < 2^27 /\ 0 <= r3 < 2^26 /\ 0 <= r4 < 2^26 /\ 0 <= r5 < 2^26 /\ 0 <= r6 < 2^26 /\ 0 <= r7 < 2^26 /\ 0 <= r8 < 2^26 /\ 0 <= r9 < 2^22) /\
+    (val10 r0 r1 r2 r3 r4 r5 r6 r7 r8 r9 - val10 a0 a1 a2 a3 a4 a5 a6 a7 a8 a9 * val10 b0 b1 b2 b3 b4 b5 b6 b7 b8 b9) mod P256 = 0).
+Proof.
+  intros. apply fe10x26_mul_inner_wp; try assumption. intros r0 r1 r2 r3 r4 r5 r6 r7 r8 r9 H'. exact H'.
+Qed.
+
 (* ---- squaring ---- *)
 Ltac gen_sq30 a :=
   let H := fresh "PB" in
@@ -117,13 +132,14 @@ Ltac gen_sq30 a :=
 Lemma dbl30 a : 0 <= a < 2^30 -> u32 (a * 2) = 2 * a.
 Proof. intros. unfold u32. rewrite Z.mod_small by lia. ring. Qed.
 
-Theorem fe10x26_sqr_inner_correct a0 a1 a2 a3 a4 a5 a6 a7 a8 a9 :
+Theorem fe10x26_sqr_inner_wp a0 a1 a2 a3 a4 a5 a6 a7 a8 a9 (Q : Z -> Z -> Z -> Z -> Z -> Z -> Z -> Z -> Z -> Z -> Prop) :
   0 <= a0 < 2^30 -> 0 <= a1 < 2^30 -> 0 <= a2 < 2^30 -> 0 <= a3 < 2^30 -> 0 <= a4 < 2^30 -> 0 <= a5 < 2^30 -> 0 <= a6 < 2^30 -> 0 <= a7 < 2^30 -> 0 <= a8 < 2^30 -> 0 <= a9 < 2^26 ->
-  fe10x26_sqr_inner_k a0 a1 a2 a3 a4 a5 a6 a7 a8 a9 (fun r0 r1 r2 r3 r4 r5 r6 r7 r8 r9 =>
+  (forall r0 r1 r2 r3 r4 r5 r6 r7 r8 r9,
     (0 <= r0 < 2^26 /\ 0 <= r1 < 2^26 /\ 0 <= r2 < 2^27 /\ 0 <= r3 < 2^26 /\ 0 <= r4 < 2^26 /\ 0 <= r5 < 2^26 /\ 0 <= r6 < 2^26 /\ 0 <= r7 < 2^26 /\ 0 <= r8 < 2^26 /\ 0 <= r9 < 2^22) /\
-    (val10 r0 r1 r2 r3 r4 r5 r6 r7 r8 r9 - val10 a0 a1 a2 a3 a4 a5 a6 a7 a8 a9 * val10 a0 a1 a2 a3 a4 a5 a6 a7 a8 a9) mod P256 = 0).
+    modp0 (val10 r0 r1 r2 r3 r4 r5 r6 r7 r8 r9 - val10 a0 a1 a2 a3 a4 a5 a6 a7 a8 a9 * val10 a0 a1 a2 a3 a4 a5 a6 a7 a8 a9) -> Q r0 r1 r2 r3 r4 r5 r6 r7 r8 r9) ->
+  fe10x26_sqr_inner_k a0 a1 a2 a3 a4 a5 a6 a7 a8 a9 Q.
 Proof.
-  intros Ha0 Ha1 Ha2 Ha3 Ha4 Ha5 Ha6 Ha7 Ha8 Ha9.
+  intros Ha0 Ha1 Ha2 Ha3 Ha4 Ha5 Ha6 Ha7 Ha8 Ha9 HQ.
   assert (Hprod : val10 a0 a1 a2 a3 a4 a5 a6 a7 a8 a9 * val10 a0 a1 a2 a3 a4 a5 a6 a7 a8 a9 =
     (a0*a0)
     + (2*(a0*a1)) * 2^26
@@ -144,15 +160,18 @@ Proof.
     + (2*(a7*a9) + a8*a8) * 2^416
     + (2*(a8*a9)) * 2^442
     + (a9*a9) * 2^468) by (unfold val10; ring).
+  rewrite Hprod in HQ. clear Hprod.
   unfold fe10x26_sqr_inner_k.
   rewrite (dbl30 a0) by lia. rewrite (dbl30 a1) by lia. rewrite (dbl30 a2) by lia. rewrite (dbl30 a3) by lia. rewrite (dbl30 a4) by lia. rewrite (dbl30 a5) by lia. rewrite (dbl30 a6) by lia. rewrite (dbl30 a7) by lia. rewrite (dbl30 a8) by lia.
   rewrite <- !Z.mul_assoc.
-  rewrite Hprod. clear Hprod.
+  revert HQ.
   gen_sq30 a0. gen_prod30 a0 a1. gen_prod30 a0 a2. gen_prod30 a0 a3. gen_prod30 a0 a4. gen_prod30 a0 a5. gen_prod30 a0 a6. gen_prod30 a0 a7. gen_prod30 a0 a8. gen_prod30 a0 a9. gen_sq30 a1. gen_prod30 a1 a2. gen_prod30 a1 a3. gen_prod30 a1 a4. gen_prod30 a1 a5. gen_prod30 a1 a6. gen_prod30 a1 a7. gen_prod30 a1 a8. gen_prod30 a1 a9. gen_sq30 a2. gen_prod30 a2 a3. gen_prod30 a2 a4. gen_prod30 a2 a5. gen_prod30 a2 a6. gen_prod30 a2 a7. gen_prod30 a2 a8. gen_prod30 a2 a9. gen_sq30 a3. gen_prod30 a3 a4. gen_prod30 a3 a5. gen_prod30 a3 a6. gen_prod30 a3 a7. gen_prod30 a3 a8. gen_prod30 a3 a9. gen_sq30 a4. gen_prod30 a4 a5. gen_prod30 a4 a6. gen_prod30 a4 a7. gen_prod30 a4 a8. gen_prod30 a4 a9. gen_sq30 a5. gen_prod30 a5 a6. gen_prod30 a5 a7. gen_prod30 a5 a8. gen_prod30 a5 a9. gen_sq30 a6. gen_prod30 a6 a7. gen_prod30 a6 a8. gen_prod30 a6 a9. gen_sq30 a7. gen_prod30 a7 a8. gen_prod30 a7 a9. gen_sq30 a8. gen_prod30 a8 a9. gen_sq30 a9.
   clear Ha0 Ha1 Ha2 Ha3 Ha4 Ha5 Ha6 Ha7 Ha8 Ha9.
+  intro HQ.
   repeat first [ split26_step | split22_step | sum_step | keep_step ].
   bintro. match goal with H : ?x = u32 ?v |- _ => assert (Er : x = v) by (rewrite H; unfold u32; apply Z.mod_small; timeout 120 lia); clear H end.
   cbv beta.
+  apply HQ; clear HQ; unfold modp0.
   split; [repeat (split; [timeout 300 lia|]); timeout 300 lia|].
   match goal with |- (?l - ?x) mod P256 = 0 =>
     assert (ID : l + (16 * (u0 + u1 * 2^26 + u2 * 2^52 + u3 * 2^78 + u4 * 2^104 + u5 * 2^130 + u6 * 2^156 + u7 * 2^182 + u8 * 2^208 + d18 * 2^234) + c37) * P256 = x)
@@ -160,4 +179,13 @@ Proof.
     rewrite <- ID end.
   match goal with |- (?l - (?l + ?k * P256)) mod P256 = 0 => replace (l - (l + k * P256)) with ((- k) * P256) by ring end.
   apply Z.mod_mul. unfold P256. lia.
+Qed.
+
+Theorem fe10x26_sqr_inner_correct a0 a1 a2 a3 a4 a5 a6 a7 a8 a9 :
+  0 <= a0 < 2^30 -> 0 <= a1 < 2^30 -> 0 <= a2 < 2^30 -> 0 <= a3 < 2^30 -> 0 <= a4 < 2^30 -> 0 <= a5 < 2^30 -> 0 <= a6 < 2^30 -> 0 <= a7 < 2^30 -> 0 <= a8 < 2^30 -> 0 <= a9 < 2^26 ->
+  fe10x26_sqr_inner_k a0 a1 a2 a3 a4 a5 a6 a7 a8 a9 (fun r0 r1 r2 r3 r4 r5 r6 r7 r8 r9 =>
+    (0 <= r0 < 2^26 /\ 0 <= r1 < 2^26 /\ 0 <= r2 < 2^27 /\ 0 <= r3 < 2^26 /\ 0 <= r4 < 2^26 /\ 0 <= r5 < 2^26 /\ 0 <= r6 < 2^26 /\ 0 <= r7 < 2^26 /\ 0 <= r8 < 2^26 /\ 0 <= r9 < 2^22) /\
+    (val10 r0 r1 r2 r3 r4 r5 r6 r7 r8 r9 - val10 a0 a1 a2 a3 a4 a5 a6 a7 a8 a9 * val10 a0 a1 a2 a3 a4 a5 a6 a7 a8 a9) mod P256 = 0).
+Proof.
+  intros. apply fe10x26_sqr_inner_wp; try assumption. intros r0 r1 r2 r3 r4 r5 r6 r7 r8 r9 H'. exact H'.
 Qed.
